@@ -587,6 +587,7 @@ def main():
     out_lines = []
     reported_classes = set()
     nrep = 0
+    corr_only = []
     for item in failures:
         idx, why, il, ml = item[0], item[1], item[2], item[3]
         cls = registry.classify(prop, cases[idx] if isinstance(idx, int) and idx < len(cases) else "", why)
@@ -595,6 +596,10 @@ def main():
             if cls not in reported_classes:
                 reported_classes.add(cls)
                 out_lines.append(f"KNOWN-FINDING: property={prop} {kn[0]['what']}")
+            continue
+        if why and all(part.startswith(registry.CORR) for part in why.split("; ") if part):
+            # implementation and model differ, but none of the property's own clauses fails on this input
+            corr_only.append((idx, why, il, ml))
             continue
         violations += 1
         if nrep < 5:
@@ -614,6 +619,21 @@ def main():
                 path = os.path.join(ROOT, "replays", f"{prop}-{seed}-x{nrep}.json")
                 json.dump({"property": prop, "why": why, "detail": il}, open(path, "w"), indent=1)
             out_lines.append(f"VIOLATION property={prop} replay={os.path.relpath(path, ROOT)}")
+    if corr_only:
+        # the correspondence no longer checks: reported once, with the first differing cases as the replay
+        os.makedirs(os.path.join(ROOT, "replays"), exist_ok=True)
+        path = os.path.join(ROOT, "replays", f"{prop}-{seed}-correspondence.json")
+        first = []
+        for (idx, why, il, ml) in corr_only[:5]:
+            ctxi = context_of(cases, idx) if isinstance(idx, int) and idx < len(cases) else None
+            first.append({"case": cases[idx] if isinstance(idx, int) and idx < len(cases) else str(idx),
+                          "context": cases[ctxi][:20000] if ctxi is not None and ctxi != idx else None,
+                          "why": why, "implementation": il[:2000], "model": ml[:2000]})
+        json.dump({"property": prop, "broken_correspondence": "implementation and model differ on %d cases; none of them "
+                   "violates a clause of the property itself" % len(corr_only), "first_cases": first,
+                   "search": "no failing input found by the generators and corpus of this property"}, open(path, "w"), indent=1)
+        out_lines.append(f"VIOLATION property={prop} replay={os.path.relpath(path, ROOT)} no-failing-input-found")
+        violations += 1
     if broken and violations == 0:
         os.makedirs(os.path.join(ROOT, "replays"), exist_ok=True)
         path = os.path.join(ROOT, "replays", f"{prop}-{seed}-obligation.json")
